@@ -12,7 +12,7 @@
     fuel), run on the encoded table over the default scopes, returns success, and the sorted namespace view of the
     resulting tree (Aml/View.v) IS the namespace [ns] the specification assigns to the program (Aml/Grammar.v). *)
 From Coq Require Import NArith List.
-From FF Require Import Aml.Grammar Aml.WfProgram Aml.ParserFragF0Final Aml.ParserFragF1Final Aml.ParserFragF3Final Aml.ParserFragF4Final Aml.ParserFragF5Final Aml.ParserFragF6Final Aml.ParserFragF7Final Aml.ParserFragT2Final Aml.ParserFragT2F7Final Aml.ParserFragTNTop Aml.ParserFragTNFinal.
+From FF Require Import Aml.Grammar Aml.WfProgram Aml.ParserFragF0Final Aml.ParserFragF1Final Aml.ParserFragF3Final Aml.ParserFragF4Final Aml.ParserFragF5Final Aml.ParserFragF6Final Aml.ParserFragF7Final Aml.ParserFragT2Final Aml.ParserFragT2F7Final Aml.ParserFragTNTop Aml.ParserFragTNFinal Aml.ParserFragF8Final Aml.ParserFragTN8Final.
 Import ListNotations.
 Local Open Scope N_scope.
 
@@ -157,3 +157,23 @@ Theorem C11_parse_encode_partial_TN : forall tables,
   wf_program tables = true -> in_fragment_TN tables = true -> parse_encode_statement tables.
 Proof. exact parse_encode_TN. Qed.
 Print Assumptions C11_parse_encode_partial_TN.
+
+(** Fragment F8 ([in_fragment_F8], a boolean) = F7 + nested packages: in [Name(SEG, Package(n){e1, ..., em})] every
+    element is an integer constant, a string, or again a [Package(n'){...}] of such elements, to any depth (the shape
+    of tables such as _PSS).  Production added to F7: PackageElement = DefPackage.  The parser reads a nested package
+    with the same object-list loop (the inner package's ScopeBlock on the scope stack, its end on the pkgEnd stack);
+    the proof treats package elements by an induction of their own (ParserFragF1First.v [ESpec]); connectNamedObjArgs
+    attaches the whole subtree to the Name, and the view renders it recursively (ParserFragF1View.v [render_pels]).
+    Not covered: names / Buffers as elements, VarPackage. *)
+Theorem C11_parse_encode_partial_F8 : forall tables,
+  wf_program tables = true -> in_fragment_F8 tables = true -> parse_encode_statement tables.
+Proof. exact parse_encode_F8. Qed.
+Print Assumptions C11_parse_encode_partial_F8.
+
+(** Fragment TN8 ([in_fragment_TN8], a boolean) = TN with the items of F8: any number of tables (at least one), every
+    table a table of F8, all tables but the last without Scope directives, 6 + the sum of the encoded table lengths
+    below 2^28.  Subsumes F8 and TN: the largest fragment proved so far. *)
+Theorem C11_parse_encode_partial_TN8 : forall tables,
+  wf_program tables = true -> in_fragment_TN8 tables = true -> parse_encode_statement tables.
+Proof. exact parse_encode_TN8. Qed.
+Print Assumptions C11_parse_encode_partial_TN8.
